@@ -48,6 +48,15 @@ class Gen:
 
     def key(self):
         forbid = self.delim + self.comment + b'"'
+        # keys recur across sections and are prefixes / extensions of each other
+        prevk = getattr(self, "_keys", [])
+        if prevk and self.rng.random() < 0.3:
+            b = self.rng.choice(prevk)
+            r = self.rng.random()
+            k = b if r < 0.5 else (b[:max(1, len(b) - 1)] if r < 0.75 else b + b"x")
+            k = k.strip(b" \t\x0b\x0c\r")
+            if k and k[:1] != b"[" and all(c not in forbid for c in k):
+                return k
         if self.cls != "none":
             forbid += b" \t\x0b\x0c\r"
         while True:
@@ -57,6 +66,7 @@ class Gen:
                 if not k:
                     continue
             if k[:1] != b"[":
+                self._keys = prevk + [k]
                 return k
 
     def plain_value(self, allow_empty=True):
@@ -82,7 +92,14 @@ class Gen:
     def section_name(self):
         while True:
             n = self.text(1, 6, self.comment)
+            # names related to earlier ones (proper prefix / extension / same) exercise the name comparison
+            prev = getattr(self, "_sections", [])
+            if prev and self.rng.random() < 0.35:
+                b = self.rng.choice(prev)
+                r = self.rng.random()
+                n = b[:max(1, len(b) - 1)] if r < 0.4 else (b + self.textbyte(self.comment) if r < 0.8 else b)
             if n != NONE and n[:1] != b"[" and n.strip(b" \t\x0b\x0c\r"):
+                self._sections = prev + [n]
                 return n
 
     # --- items: dicts with 'kind' and the rendered 'lines' (list of bytes without \n)
